@@ -19,7 +19,9 @@ def configs(ctx):
             dict(name="crash6", stakes=[1, 1, 1, 1, 1, 1], byz=[4], byz_mode="spam", crashed=[3], crash_at=0,
                  seed=ctx.seed + 2, gst=1500, chaos=800, drop=30, run_ms=14000),
             # one validator holds most of the stake (Rotor makes it the relay of most of its own shreds)
-            dict(name="heavy4", stakes=[5, 1, 1, 1], seed=ctx.seed + 4, gst=1000, chaos=500, drop=30, run_ms=10000),
+            # (no fast-path demand: the heavy validator alone completes the slow path)
+            dict(name="heavy4", stakes=[5, 1, 1, 1], seed=ctx.seed + 4, gst=1000, chaos=500, drop=30, run_ms=10000,
+                 require_fast=False),
             # an equivocating leader (two blocks per slot to different halves + vote equivocation): the windows
             # of CORRECT leaders after stabilisation must still be finalized (parents chosen among the twins)
             dict(name="equiv4", stakes=[2, 2, 2, 1], byz=[3], byz_mode="equivocate", seed=ctx.seed + 3, gst=1500,
